@@ -10,10 +10,17 @@
 
    Stage 1  cut / inside (token level), boundary_b / inside_b (string level,
             by recorded offsets), cut_cases, inner_special, esc_pairs
-            (backslash runs), run_start_cases, special_at_cut,
+            (backslash runs), special_start_cases, special_at_cut;
+            backslash_run, run_start_boundary, escape_not_boundary_cases,
             escape_at_boundary.
-   Stage 2  comment_char_cases, comment_string, lex_comments.
-   Stage 3  end_five_tokens, end_at_cut, first_end_occurrence.
+   Stage 2  comment_even / comment_odd, comment_string, first_pct_on_line;
+            2b: lex_marks_spec (a three-class scan finds the Comment tokens),
+            comment_starts_by_class.
+   Stage 3  end_five_tokens, end_at_cut, first_end_occurrence,
+            end_string_provisos, hyp_skip_letters (ReaderCons.hyp_skip for
+            names made of letters), and the refutations showing that each
+            proviso is needed.
+   Props/C10str.v and Props/C11str.v restate the theorems (C10_... / C11_...).
 
    Every fact about a generated table is obtained by computation. *)
 From Coq Require Import List NArith ZArith Bool Lia Arith.
@@ -1862,7 +1869,7 @@ Corollary hyp_skip_builtin s user :
   clean s = true -> start_quirk s = false -> forallb name_ok_b user = true ->
   ReaderCons.hyp_skip (Tables.skip_env_names ++ user) (toks_of s).
 Proof.
-  intros Hcl Hq Hu. apply hyp_skip_letters; try assumption.
+  intros Hcl Hq Hu. apply hyp_skip_letters; [exact Hcl | exact Hq |].
   rewrite forallb_app, builtin_names_ok, Hu. reflexivity.
 Qed.
 
